@@ -386,7 +386,10 @@ class C03(ClientProp):
 
     def mc_runs(self, ctx):
         return [{"module": "MC_Client", "cfg": ctx.pick("MC_Client.cfg", "MC_ClientDeep.cfg"), "timeout": 1700, "coverage": False},
-                {"module": "MC_ClientShared", "expect_violation": "SessionOfOwnLogin", "workers": 2}] + MODEL_RUNS[:1]
+                {"module": "MC_ClientShared", "expect_violation": "SessionOfOwnLogin", "workers": 2}] + MODEL_RUNS[:1] + ctx.pick([], [
+                    # two operations per client: too large to exhaust (> 30 min on 16 cores), explored by random walks
+                    {"module": "MC_Client", "cfg": "MC_ClientTwoOps.cfg", "simulate": "num=40000", "depth": 40, "timeout": 900, "workers": 8},
+                    {"module": "MC_Client", "cfg": "MC_ClientLive.cfg", "timeout": 1200, "workers": 8}])
 
     def _any_op(self, rng, api, zone="UTC", now=1790553600):
         if api == 1:
@@ -528,7 +531,8 @@ class C09(ClientProp):
             "byte, times > 86399, bad enums, invalid UTF-8 remote id)}. distinct = distinct events; non-trivial = returns")
 
     def mc_runs(self, ctx):
-        return [{"module": "MC_Client", "cfg": ctx.pick("MC_ClientNoClock.cfg", "MC_ClientDeep.cfg"), "timeout": 1700}] + MODEL_RUNS[1:]
+        return ([{"module": "MC_Client", "cfg": ctx.pick("MC_ClientNoClock.cfg", "MC_ClientDeep.cfg"), "timeout": 1700}] + MODEL_RUNS[1:]
+                + ctx.pick([], [{"module": "MC_Client", "cfg": "MC_ClientLive.cfg", "timeout": 1200, "workers": 8}]))
 
     def scenarios(self, ctx: Ctx):
         rng = ctx.rng
